@@ -111,3 +111,8 @@ package channel
 
 //@ # the distinct leaseholders of a key list are a deterministic function of the list
 //@ pure func (k Keys) UniqueLeaseholders() []node.Key
+
+//@ # ---- lock discipline: the set of external non-virtual channel keys (channel limit, ordering)
+//@ guarded_by Service.mu.externalNonVirtualSet mu
+//@ unshared New the service is built before it is published
+//@ unshared OpenService the service is built before it is published
